@@ -7,7 +7,7 @@ TECH = "symbolic execution of the real go/ssa of /repo (own executor 'symgo') + 
 CHECKS = {
  "C01": dict(
   text="bounded symbolic model checking of the login-callback route through Provider.HttpHandler(): the request (id in query and/or body, any method), the storage answer (request absent | present with every field a free string, Done free, binding POST / Redirect / other), every storage fault and every key-material shape are symbolic; on every path the solver decides: Success => the lookup succeeded, Done() was consulted and true, no fault; a non-Success message carries no subject, attribute, authn statement or signature; user info is fetched only after Done; an HTTP error carries no message",
-  note="one request (histories reduced to 'arbitrary storage answer per call', DESIGN §3.7); user record: e-mail / user name optional, <=1 custom attribute; reply bytes are encoding/xml's (contract); strings unbounded",
+  note="histories: 'arbitrary storage answer per call' (DESIGN §3.7) plus one earlier nominal request of another session / a signed-metadata request served on the same provider first (DESIGN §9.6); user record: e-mail / user name optional, <=1 custom attribute; reply bytes are encoding/xml's (contract); strings unbounded",
   ref="DESIGN.md §5 C01"),
  "C02": dict(
   text="bounded symbolic model checking of the SSO, callback and logout routes: request-supplied URLs (AssertionConsumerServiceURL, Destination, RelayState, further parameters) are free strings independent of the registered ones; on every path the solver decides that a form action / redirect target / Destination / Recipient is a registered ACS (SSO), the stored consumer URL with the stored binding (callback) or the first registered SingleLogoutService location (logout), or the reply stays in the HTTP body; the pair handed to CreateAuthRequest is one registered ACS entry",
@@ -15,11 +15,11 @@ CHECKS = {
   ref="DESIGN.md §5 C02"),
  "C03": dict(
   text="bounded symbolic model checking of the callback route's Success paths: the decoded Success message is compared field for field with the stored request, the audience the storage resolved, the user record and the clock: InResponseTo (response and confirmation), Destination = Recipient, both Issuers, Audience, NameID, the attribute statement as a set of (Name, NameFormat, FriendlyName, value list), RelayState at the sink (escaped exactly once in a query), IssueInstant = NotBefore a clock reading of this request, NotOnOrAfter = IssueInstant + lifetime, two distinct fresh NCName ids",
-  note="custom attributes <=1 / <=2, values per attribute <=2 / <=3; quick: e-mail and user name optional, thorough: every standard attribute optional; no storage faults (profile); byte-level escaping is encoding/xml's (contract, see C18)",
+  note="custom attributes <=1 / <=2, values per attribute <=2 / <=3; quick: e-mail and user name optional, thorough: every standard attribute optional; no storage faults (profile); byte-level escaping is encoding/xml's (contract, see C18); history: one earlier nominal callback of another session, also under a host-derived issuer with another Host (DESIGN §9.6)",
   ref="DESIGN.md §5 C03"),
  "C04": dict(
   text="bounded symbolic model checking at composition level of the callback, attribute-query and metadata routes with idealised signatures: (a) Redirect binding: the octets handed to the signer equal the octets a conformant verifier rebuilds from the Location actually sent (word equations over the escaping function, cvc5), SigAlg is the algorithm URI used, Signature is the base64 of the signer's bytes escaped once; (b) enveloped signatures: the value snapshot signed equals the snapshot that reaches the encoder and the ds:Signature on the wire equals member for member what the signer returned; (c) no Success message leaves unsigned, for stored bindings POST / Redirect and any (also empty) consumer URL",
-  note="NOT covered (stated, not encodable here): agreement of xmlsig's canonical form with exclusive C14N of the wire bytes for every character, RSA/SHA themselves; both are library code behind contracts",
+  note="xmlsig's canonical form is a contract read from its source: it equals exclusive C14N of the wire document unless a signed text contains & < > CR or a signed attribute value & < \" TAB LF CR - on the pinned tree that region is a genuine, natively reproduced defect of the dependency, recorded as known finding C04.xmlsig-digests-text-unescaped (DESIGN §9.10); RSA/SHA themselves are idealised; size-dependent paths are reached through the length abstraction and the amplified replay (DESIGN §9.8); history: a signed-metadata request with another key pair first (DESIGN §9.6)",
   ref="DESIGN.md §5 C04"),
  "C05": dict(
   text="bounded symbolic model checking of the SSO route with idealised signatures: parameters in query and/or body (so moving a message or its signature to the other binding is a valuation), AuthnRequestsSigned / WantAuthRequestsSigned over {absent,true,false,1,0,any string}, 0..1 (quick) / 0..2 (thorough) key descriptors with symbolic key type, arbitrary embedded Signature / KeyInfo shape, arbitrary Signature / SigAlg parameters; the simulated SP signs nothing, so every signature value is a forgery: the solver decides that no path reaches CreateAuthRequest when signing is required by either side, or when any non-empty signature value (query parameter or ds:SignatureValue, on either binding) is present; the signed-request harness (HarnessSSOSigned) adds one validly signed Redirect request and decides that acceptance implies the values acted on are exactly the signed ones",
@@ -34,7 +34,7 @@ CHECKS = {
   note="byte-level serialisation variety (prefixes, whitespace, attribute order), other percent-encoding styles of signed queries, and enveloped (POST / SOAP) signed requests are outside this check (decode model is struct level; see DESIGN §5 C07)",
   ref="DESIGN.md §5 C07"),
  "C08": dict(
-  text="bounded symbolic model checking of the SSO route over six input profiles (placement/decoding, signatures, ACS shapes incl. Artifact / PAOS / unknown bindings, content, storage faults, ACS x faults): on every path at most one CreateAuthRequest; acceptance = exactly one successful persist followed by one 303 to sp.LoginURL(returned id) and no message; rejection = no successful persist and exactly one non-empty reply (one non-Success Response as form / redirect / body, or one http.Error); never an empty reply, two messages, or a reply after a persist",
+  text="bounded symbolic model checking of the SSO route over six input profiles (placement/decoding, signatures, ACS shapes incl. Artifact / PAOS / unknown bindings, content, storage faults, ACS x faults): on every path at most one CreateAuthRequest; acceptance = exactly one successful persist followed by one 303 to sp.LoginURL(returned id) and no message; rejection = no successful persist and exactly one non-empty reply (one non-Success Response as form / redirect / body, or one http.Error); never an empty reply, two messages, a reply after a persist, or a panic",
   note="ACS entries <=2 / <=3; the product of all profiles at once is outside the claim (each profile pins the other dimensions to nominal values, listed in the evidence)",
   ref="DESIGN.md §5 C08"),
  "C09": dict(
@@ -58,19 +58,19 @@ CHECKS = {
   note="time layout default; RelayState compared as a term (byte escaping is html/template's)",
   ref="DESIGN.md §5 C13"),
  "C14": dict(
-  text="symbolic model checking of xml.InflateAndDecode and its callers with the stream contracts: the inflated length L of a DEFLATE payload is an unconstrained symbolic integer; the solver decides, for every L, that no operation materialises more than 32 MiB of stream content and that a payload above the module's limit is rejected, never truncated and accepted",
-  note="decided for limiters the contracts know (io.LimitReader, LimitedReader, MaxBytesReader, CopyN); a hand-written counting loop is reported inconclusive; allocator figures and flate's window memory outside the claim",
+  text="symbolic model checking of xml.InflateAndDecode and its callers (SSO query, SSO form, logout) with the stream contracts: the payload is padding only or a complete conformant AuthnRequest / LogoutRequest followed by a padding comment, framed as raw DEFLATE, zlib or gzip; its inflated length L is an unconstrained symbolic integer (0..2^40); the solver decides, for every L, that no operation materialises more than 32 MiB of stream content and that a payload above 32 MiB is never accepted (persisted / answered with Success), also not after truncation",
+  note="decided for limiters the contracts know (io.LimitReader, LimitedReader, MaxBytesReader, CopyN) and readers flate / zlib / gzip; a truncated prefix that still holds the complete leading document decodes (xml.Unmarshal ignores what follows the root element); a hand-written counting loop is reported inconclusive; allocator figures and flate's window memory outside the claim",
   ref="DESIGN.md §5 C14"),
  "C15": dict(
-  text="reduction (DESIGN §3.7) decided by symbolic execution of every route: every heap object carries its epoch; on every path of every handler the engine checks that no store, map update or append targets a provider-lifetime object or a package variable (so replies are functions of the request and the storage answers obtained during it, and concurrent requests cannot interfere through module code); every emitted ID is a fresh, pairwise distinct uuid-derived NCName (C03 / C11 harness assertions)",
-  note="schedules are NOT encoded; goroutine-safety of html/template, uuid, crypto/rand and the storage is trusted; the race detector and library-internal races are outside the claim",
+  text="reduction (DESIGN §3.7) decided by symbolic execution of every route: every heap object carries its epoch; on every path of every handler the engine checks that no store, map update or append targets a provider-lifetime object or a package variable (so replies are functions of the request and the storage answers obtained during it, and concurrent requests cannot interfere through module code); every emitted ID is a fresh, pairwise distinct uuid-derived NCName (C03 / C11 harness assertions); sync.Map / atomic.Value / sync.Pool are modelled: request-dependent stores are writes, a pooled buffer comes back with an arbitrary leftover, bytes aliasing a buffer put back are arbitrary; under all of that the reply must consist of this request's own documents",
+  note="schedules are NOT enumerated: the reduction plus the pool contract stand for them, and the native replay has two deterministic devices (clients that abort the transfer before the request, other clients served during the first Write; DESIGN §9.6); goroutine-safety of html/template, uuid, crypto/rand and the storage is trusted; the race detector and library-internal races are outside the claim",
   ref="DESIGN.md §5 C15"),
  "C17": dict(
-  text="usage-level symbolic model checking of every path of the SSO, callback and logout routes that ends in a form: the executed template is an html/template object parsed from the module's constant text, that text has exactly three actions each inside a double-quoted attribute value of the expected element, the data has exactly three plain-string fields equal to the consumer / logout URL term, the RelayState term and base64(xml(message)), no bypass type (template.HTML/URL/JS...) reaches the sink, at most one form per reply",
+  text="usage-level symbolic model checking of every path of the SSO, callback and logout routes that ends in a form: the executed template is an html/template object parsed from the module's constant text, that text has exactly three actions each inside a double-quoted attribute value of the expected element, the data has exactly three plain-string fields equal to the consumer / logout URL term, the RelayState term and base64(xml(message)), no bypass type (template.HTML/URL/JS...) reaches the sink (for string-kinded bypass types the violation is stated on a distinguishing value, e.g. a javascript: consumer URL, so that the replay shows it), at most one form per reply also when the page is rendered through pooled buffers (DESIGN §9.6); stored consumer URLs of POST-binding requests are arbitrary strings",
   note="html/template's contextual escaping itself (every byte inert, javascript:/data: replaced) is the library's documented contract and is not encoded",
   ref="DESIGN.md §5 C17"),
  "C18": dict(
-  text="symbolic model checking of the codec functions under the stream contracts: InflateAndDecode returns an error for every encoding identifier outside {\"\", DEFLATE} (all strings); InflateAndDecode(DEFLATE, true, DeflateAndBase64(x)) returns x or an error, and x whenever len(x) <= 1 MiB; every reply of every route is exactly one document produced by encoding/xml's encoder",
+  text="symbolic model checking of the codec functions under the stream contracts: InflateAndDecode returns an error for every encoding identifier outside {\"\", DEFLATE} (all strings); InflateAndDecode(DEFLATE, true, DeflateAndBase64(x)) returns x or an error, and x whenever len(x) <= 1 MiB; also when other messages are encoded in between; every reply of every route is exactly one document produced by encoding/xml's encoder, and what the library's decoder returns for it equals what was handed to the encoder - custom MarshalXML / UnmarshalXML / MarshalText / UnmarshalText methods of module types are executed from their SSA inside the contracts (DESIGN §9.7)",
   note="character-level escaping ('illegal characters are replaced, never restructure') is encoding/xml's EscapeText, flate's codec is the library's: contracts, not encoded",
   ref="DESIGN.md §5 C18"),
  "C19": dict(
